@@ -2,7 +2,7 @@
    /repo/pyttb/sptensor.py) and laws: the result keeps exactly the sizes > 1; the all-singleton case returns the single
    stored value (0 when nothing is stored). *)
 From Coq Require Import List ZArith Arith Bool Lia.
-From PV Require Import Np.NpZ Np.NpZ2 Np.NpZ3 Np.NpZ3c Np.NpZ3d Np.NpZ3e Np.NpZ4 Np.NpZ4b Np.NpZ4d Proofs.NpZProofs
+From PV Require Import Np.NpZ Np.NpZ2 Np.NpZ3 Np.NpZ3c Np.NpZ3d Np.NpZ3e Np.NpZ4 Np.NpZ4b Np.NpZ4d Np.NpZ4f Proofs.NpZProofs
   Model.W4Squeeze Proofs.W4Loops Gen.GenSptensor4b.
 Import ListNotations.
 Local Open Scope Z_scope.
@@ -29,27 +29,78 @@ Proof. exact (take_where_from P [] l). Qed.
 Lemma np_all_map (P : Z -> bool) (l : vec) : np_all (map P l) = forallb P l.
 Proof. unfold np_all. induction l as [|x l IH]; cbn [map forallb]; [reflexivity|]. now rewrite IH. Qed.
 
-Theorem squeeze_bridge (self : sptz) : sptensor_squeeze self = H_squeeze self.
+(* ---- the bridge, for BOTH source texts (wave 6) -------------------------------------------------------------------
+   The generated method tests the sizes entry by entry with `shapeArray > 1` (/repo before f390850) or with
+   `shapeArray != 1` (after it).  One proof script serves both: it is run with the test the text uses. *)
+Ltac sq_bridge P :=
+  let self := fresh "self" in let T1 := fresh "T1" in let T2 := fresh "T2" in
+  intros self; unfold sptensor_squeeze, H_squeeze_p, H_keep_p, spt_make; try unfold np_gt_s; try unfold np_ne_s; cbv zeta;
+  rewrite (np_all_map P); destruct (forallb _ (spt_shape self)); [reflexivity|];
+  destruct (take_where P (spt_shape self)) as [T1 T2]; rewrite T1, T2;
+  destruct (zlen (np_where1 _) =? 0);
+  [ destruct (spt_vals self) as [|v [|v' vs]]; [reflexivity|reflexivity|];
+    unfold zlen; cbn [length]; replace (Z.of_nat (S (S (length vs))) >? 0) with true by (symmetry; apply Z.gtb_lt; lia);
+    replace (Z.of_nat (S (S (length vs))) =? 1) with false by (symmetry; apply Z.eqb_neq; lia); reflexivity
+  | destruct (zlen (spt_vals self) =? 0); reflexivity ].
+
+(* the generated method IS the reference, instantiated with the test its text uses: exactly one of the two *)
+Theorem squeeze_bridge_text :
+  (forall self : sptz, sptensor_squeeze self = H_squeeze_p (fun d => d >? 1) self) \/
+  (forall self : sptz, sptensor_squeeze self = H_squeeze_p (fun d => negb (d =? 1)) self).
+Proof. first [ left; sq_bridge (fun d : Z => d >? 1) | right; sq_bridge (fun d : Z => negb (d =? 1)) ]. Qed.
+
+(* which text?  Observed on the generated method itself: an empty tensor of shape (0, 1).  `> 1` keeps no mode and returns
+   the number 0; `!= 1` keeps the mode of size 0 and returns the empty tensor of shape (0,). *)
+Definition gen_sq_keeps_zero : bool :=
+  match sptensor_squeeze (mkspt [] [] [0; 1]) with Ok (SqTensor _) => true | _ => false end.
+(* the entry-wise test of the generated text *)
+Definition gen_sq_keep (d : Z) : bool := if gen_sq_keeps_zero then negb (d =? 1) else d >? 1.
+
+Lemma gen_sq_keep_pos (d : Z) : 0 < d -> gen_sq_keep d = (d >? 1).
+Proof. intros H. unfold gen_sq_keep. destruct gen_sq_keeps_zero; [exact (sq_keep_agree d H)|reflexivity]. Qed.
+Lemma gen_sq_keep_one : gen_sq_keep 1 = false.
+Proof. unfold gen_sq_keep. destruct gen_sq_keeps_zero; reflexivity. Qed.
+Lemma gen_sq_keep_zero : gen_sq_keep 0 = gen_sq_keeps_zero.
+Proof. unfold gen_sq_keep. destruct gen_sq_keeps_zero; reflexivity. Qed.
+
+Lemma squeeze_text_gt : (forall self : sptz, sptensor_squeeze self = H_squeeze_p (fun d => d >? 1) self) -> gen_sq_keeps_zero = false.
+Proof. intros H. unfold gen_sq_keeps_zero. rewrite H. reflexivity. Qed.
+Lemma squeeze_text_ne : (forall self : sptz, sptensor_squeeze self = H_squeeze_p (fun d => negb (d =? 1)) self) -> gen_sq_keeps_zero = true.
+Proof. intros H. unfold gen_sq_keeps_zero. rewrite H. reflexivity. Qed.
+
+(* THE bridge: exact on either text *)
+Theorem squeeze_bridge (self : sptz) : sptensor_squeeze self = H_squeeze_p gen_sq_keep self.
 Proof.
-  unfold sptensor_squeeze, H_squeeze, H_keep, np_gt_s, spt_make. cbv zeta.
-  rewrite np_all_map. destruct (forallb _ (spt_shape self)); [reflexivity|].
-  destruct (take_where (fun x => x >? 1) (spt_shape self)) as [T1 T2]. rewrite T1, T2.
-  destruct (zlen (np_where1 _) =? 0).
-  - destruct (spt_vals self) as [|v [|v' vs]]; [reflexivity|reflexivity|].
-    unfold zlen. cbn [length]. replace (Z.of_nat (S (S (length vs))) >? 0) with true by (symmetry; apply Z.gtb_lt; lia).
-    replace (Z.of_nat (S (S (length vs))) =? 1) with false by (symmetry; apply Z.eqb_neq; lia). reflexivity.
-  - destruct (zlen (spt_vals self) =? 0); reflexivity.
+  destruct squeeze_bridge_text as [H|H]; rewrite H; unfold gen_sq_keep;
+    [rewrite (squeeze_text_gt H)|rewrite (squeeze_text_ne H)]; reflexivity.
+Qed.
+(* the two readings, each under the observation that selects it *)
+Theorem squeeze_bridge_gt : gen_sq_keeps_zero = false -> forall self : sptz, sptensor_squeeze self = H_squeeze self.
+Proof. intros E self. rewrite squeeze_bridge. unfold gen_sq_keep, H_squeeze. rewrite E. reflexivity. Qed.
+Theorem squeeze_bridge_ne : gen_sq_keeps_zero = true -> forall self : sptz, sptensor_squeeze self = H_squeeze_ne self.
+Proof. intros E self. rewrite squeeze_bridge. unfold gen_sq_keep, H_squeeze_ne. rewrite E. reflexivity. Qed.
+(* on a receiver whose sizes are all positive both texts are the wave-4 reference *)
+Theorem squeeze_bridge_pos (self : sptz) : forallb (fun d => 0 <? d) (spt_shape self) = true -> sptensor_squeeze self = H_squeeze self.
+Proof.
+  intros H. rewrite squeeze_bridge. apply H_squeeze_p_ext. intros d Hd. rewrite forallb_forall in H. specialize (H d Hd).
+  apply Z.ltb_lt in H. exact (gen_sq_keep_pos d H).
 Qed.
 
-(* a returned tensor keeps exactly the mode sizes > 1, in their order *)
-Theorem gen_squeeze_shape (self t : sptz) : sptensor_squeeze self = Ok (SqTensor t) ->
-  spt_shape t = filter (fun d => d >? 1) (spt_shape self) /\ spt_vals t = spt_vals self.
+(* ---- laws of the reference, for any entry-wise test ------------------------------------------------------------------ *)
+Lemma forallb_filter_id (P : Z -> bool) (l : vec) : forallb P l = true -> filter P l = l.
 Proof.
-  rewrite squeeze_bridge. unfold H_squeeze. cbv zeta. destruct (forallb _ (spt_shape self)) eqn:Ea.
+  induction l as [|d s IH]; [reflexivity|]. cbn [forallb filter]. intros E. apply andb_true_iff in E as [E1 E2].
+  rewrite E1. f_equal. apply IH. exact E2.
+Qed.
+
+(* a returned tensor keeps exactly the mode sizes that pass the test, in their order *)
+Theorem H_squeeze_p_shape (keep : Z -> bool) (self t : sptz) : H_squeeze_p keep self = Ok (SqTensor t) ->
+  spt_shape t = filter keep (spt_shape self) /\ spt_vals t = spt_vals self.
+Proof.
+  unfold H_squeeze_p. cbv zeta. destruct (forallb _ (spt_shape self)) eqn:Ea.
   - destruct (spt_make_ok _ _ _); [|discriminate]. intros E. injection E as <-. split; [|reflexivity].
-    symmetry. clear - Ea. induction (spt_shape self) as [|d s IH]; [reflexivity|]. cbn [forallb filter] in *.
-    apply andb_true_iff in Ea as [E1 E2]. rewrite E1. f_equal. apply IH. exact E2.
-  - destruct (zlen (H_keep _) =? 0).
+    symmetry. apply forallb_filter_id. exact Ea.
+  - destruct (zlen (H_keep_p _ _) =? 0).
     + destruct (spt_vals self) as [|v [|v' vs]]; discriminate.
     + destruct (zlen (spt_vals self) =? 0) eqn:Ev.
       * destruct (spt_make_ok _ _ _); [|discriminate]. intros E. injection E as <-. cbn [spt_shape spt_vals]. split; [reflexivity|].
@@ -57,16 +108,53 @@ Proof.
       * destruct (_ && _); [|discriminate]. intros E. injection E as <-. split; reflexivity.
 Qed.
 
-(* a number is returned exactly when no mode has size > 1: the single stored value, or 0 when nothing is stored *)
-Theorem gen_squeeze_scalar (self : sptz) (v : Z) : sptensor_squeeze self = Ok (SqScalar v) ->
-  filter (fun d => d >? 1) (spt_shape self) = [] /\ (spt_vals self = [v] \/ (spt_vals self = [] /\ v = 0)).
+(* a number is returned exactly when no mode passes the test: the single stored value, or 0 when nothing is stored *)
+Theorem H_squeeze_p_scalar (keep : Z -> bool) (self : sptz) (v : Z) : H_squeeze_p keep self = Ok (SqScalar v) ->
+  filter keep (spt_shape self) = [] /\ (spt_vals self = [v] \/ (spt_vals self = [] /\ v = 0)).
 Proof.
-  rewrite squeeze_bridge. unfold H_squeeze, H_keep, np_gt_s. cbv zeta. destruct (forallb _ (spt_shape self)).
+  unfold H_squeeze_p, H_keep_p. cbv zeta. destruct (forallb _ (spt_shape self)).
   - destruct (spt_make_ok _ _ _); discriminate.
-  - destruct (take_where (fun x => x >? 1) (spt_shape self)) as [T1 T2].
+  - destruct (take_where keep (spt_shape self)) as [T1 T2].
     destruct (zlen (np_where1 _) =? 0) eqn:Ez.
     + intros E. split.
       * rewrite <- T1. apply Z.eqb_eq in Ez. destruct (np_where1 _); [reflexivity|unfold zlen in Ez; cbn in Ez; lia].
       * destruct (spt_vals self) as [|w [|w' ws]]; [right|left|discriminate]; injection E as <-; auto.
     + destruct (zlen (spt_vals self) =? 0); [destruct (spt_make_ok _ _ _)|destruct (_ && _)]; discriminate.
+Qed.
+
+(* ---- the same laws for the generated method (test = the one of its text) --------------------------------------------- *)
+Theorem gen_squeeze_shape (self t : sptz) : sptensor_squeeze self = Ok (SqTensor t) ->
+  spt_shape t = filter gen_sq_keep (spt_shape self) /\ spt_vals t = spt_vals self.
+Proof. rewrite squeeze_bridge. apply H_squeeze_p_shape. Qed.
+
+Theorem gen_squeeze_scalar (self : sptz) (v : Z) : sptensor_squeeze self = Ok (SqScalar v) ->
+  filter gen_sq_keep (spt_shape self) = [] /\ (spt_vals self = [v] \/ (spt_vals self = [] /\ v = 0)).
+Proof. rewrite squeeze_bridge. apply H_squeeze_p_scalar. Qed.
+
+(* positive sizes (every tensor pyttb itself builds from data): the statements of waves 4/5, on either text *)
+Lemma filter_keep_pos (l : vec) : forallb (fun d => 0 <? d) l = true -> filter gen_sq_keep l = filter (fun d => d >? 1) l.
+Proof.
+  intros H. apply filter_ext_in. intros d Hd. rewrite forallb_forall in H. specialize (H d Hd). apply Z.ltb_lt in H.
+  exact (gen_sq_keep_pos d H).
+Qed.
+Theorem gen_squeeze_shape_pos (self t : sptz) : forallb (fun d => 0 <? d) (spt_shape self) = true ->
+  sptensor_squeeze self = Ok (SqTensor t) ->
+  spt_shape t = filter (fun d => d >? 1) (spt_shape self) /\ spt_vals t = spt_vals self.
+Proof. intros P E. rewrite <- (filter_keep_pos _ P). exact (gen_squeeze_shape self t E). Qed.
+Theorem gen_squeeze_scalar_pos (self : sptz) (v : Z) : forallb (fun d => 0 <? d) (spt_shape self) = true ->
+  sptensor_squeeze self = Ok (SqScalar v) ->
+  filter (fun d => d >? 1) (spt_shape self) = [] /\ (spt_vals self = [v] \/ (spt_vals self = [] /\ v = 0)).
+Proof. intros P E. rewrite <- (filter_keep_pos _ P). exact (gen_squeeze_scalar self v E). Qed.
+
+(* a mode of size 0: dropped by the text `> 1`, kept by the text `!= 1` *)
+Theorem gen_squeeze_zero_mode (self t : sptz) : sptensor_squeeze self = Ok (SqTensor t) ->
+  (gen_sq_keeps_zero = true -> count_occ Z.eq_dec (spt_shape t) 0 = count_occ Z.eq_dec (spt_shape self) 0) /\
+  (gen_sq_keeps_zero = false -> count_occ Z.eq_dec (spt_shape t) 0 = 0%nat).
+Proof.
+  intros E. destruct (gen_squeeze_shape self t E) as [-> _]. rewrite <- gen_sq_keep_zero. clear E.
+  induction (spt_shape self) as [|d s [I1 I2]]; [split; reflexivity|]. cbn [filter]. split; intros K.
+  - destruct (Z.eq_dec d 0) as [->|N].
+    + rewrite K. cbn [count_occ]. destruct (Z.eq_dec 0 0); [|contradiction]. f_equal. exact (I1 K).
+    + destruct (gen_sq_keep d); cbn [count_occ]; destruct (Z.eq_dec d 0); try contradiction; exact (I1 K).
+  - destruct (gen_sq_keep d) eqn:Ed; [|exact (I2 K)]. cbn [count_occ]. destruct (Z.eq_dec d 0) as [->|N]; [congruence|exact (I2 K)].
 Qed.
